@@ -160,6 +160,10 @@ def install(ctx):
 
 
 def gen_case(rng, tier, ctx, i):
+    if rng.random() < 0.1:
+        from . import c04
+        ctx.count("count:bounded-sweep-formulas")
+        return {"recipe": recipes.strip(c04.next_sweep(i, ctx.seed)), "seed": rng.getrandbits(32)}
     o = common.varied_opts(rng, tier)
     rec = common.model_case(rng, tier, o)
     if rec is None:
